@@ -109,6 +109,8 @@ class Check:
                 continue
             if "formats" in pr and fmt not in pr["formats"]:
                 continue
+            if any(p.get(key) != want for key, want in pr.get("params", {}).items()):
+                continue
             return k
         return None
 
